@@ -1725,6 +1725,11 @@ impl UnifiedCommandExecutor {
             }
             
             BitCommand::SetBit { key, offset, value } => {
+                // a string holds at most 512 MB, so a bit offset is below 2^32 (Redis's limit): a larger one would make
+                // the resize below ask for up to 2^61 bytes and abort the process
+                if offset >= 1 << 32 {
+                    return Ok(RespFrame::error("ERR bit offset is not an integer or out of range"));
+                }
                 let byte_offset = offset / 8;
                 let bit_offset = offset % 8;
                 
@@ -1755,8 +1760,11 @@ impl UnifiedCommandExecutor {
                     Some(value) => {
                         let (start_byte, end_byte) = if let (Some(s), Some(e)) = (start, end) {
                             let len = value.len() as isize;
-                            let start_pos = if s < 0 { (len + s).max(0) } else { s.min(len - 1) } as usize;
-                            let end_pos = if e < 0 { (len + e).max(0) } else { e.min(len - 1) } as usize;
+                            let start_pos = if s < 0 { len.saturating_add(s).max(0) } else { s.min(len - 1) } as usize;
+                            let end_pos = if e < 0 { len.saturating_add(e).max(0) } else { e.min(len - 1) } as usize;
+                            if start_pos > end_pos {
+                                return Ok(RespFrame::Integer(0)); // an empty range (it used to panic on the slice below)
+                            }
                             (start_pos, end_pos)
                         } else {
                             (0, value.len().saturating_sub(1))
